@@ -4,15 +4,18 @@ Spaces I x H with a run-time monitor.  An *archive case* is {"c": container, "m"
 a *case* adds a consumer history "h": [kind, k].  Everything is enumerated (never sampled):
 
   member names   prefix {"", "/", "//", "C:", "C:\\", "\\\\h\\s\\"} x 1..D segments over {a, .., ., "", .h, __MACOSX, 255*a, u-umlaut}
-                 x separator {/, \\} x extension {.txt, .bin, .zip, none}  (D = 2 quick / 3 thorough), plus the names of
-                 CANARY files of a private per-process sandbox (absolute, ..-relative to the temporary directory, through the
+                 x separator {/, \\} x extension {.txt, .bin, .zip, none}  (D = 2 quick / 3 thorough on zip-stored, plain tar
+                 and 7z; D-1 on the compressed variants zip-deflated / tar.gz / tar.bz2 / tar.xz), plus the names of CANARY
+                 files of a private per-process sandbox (absolute, ..-relative to the temporary directory, through the
                  file-system root, cwd-relative, backslash and drive spellings)
   containers     zip (stored / deflated), tar (plain / gz / bz2 / xz) with member types REG DIR SYM LNK CHR BLK FIFO and link
-                 targets from the same grammar, zip directory / symlink entries, 7z with every combination of {member has a
-                 data stream, EmptyStream bit, directory attribute, no MainStreamsInfo}; oversize members; every proper prefix
-                 (truncation) of three base archives
-  histories      exhaust; close() after k results; abandon after k (+ gc.collect()); generator.throw(RuntimeError) after k;
-                 the consumer's own loop body raises after k   (k = 0..n, n = number of results of the archive)
+                 targets from the same grammar (depth D-1; D-2 on compressed variants), zip directory / symlink entries, 7z
+                 with every combination of {member has a data stream, EmptyStream bit, directory attribute, no
+                 MainStreamsInfo} (bit / attribute forgeries for names of < D segments); pairs of colliding names; a real
+                 nested archive behind each of the 12 archive extensions of the README; oversize members (10 MiB + 1);
+                 every proper prefix (truncation) of 7 base archives
+  histories      exhaust; close() after k results; abandon after k (+ gc.collect()); generator.throw(RuntimeError) after k
+                 (k = 0..n); the consumer's own loop body raises after k (k = 1..n); n = number of results of the archive
 
 Monitor: c09_monitor (sys.addaudithook, switched by a flag), tempfile.tempdir pointed at <sandbox>/tmp, cwd = <sandbox>/cwd,
 the sandbox tree is compared before/after every history.  States = (archive, consumer-history prefix); transitions =
@@ -168,8 +171,10 @@ def _flags(m):
 def build(arch, root, seed):
     """-> (archive bytes, archive path, info).  info["tok"] = {token: (member index, class, reasons)}; class X = the member
     must not produce a result, B = witness, Z = don't care.  K tokens are the canary contents."""
-    tk = Tokens(seed)
-    ktok = [tk.new("K") for _ in M.CANARY_FILES]
+    ktok = M.canary_tokens(seed)
+    # truncated archives are always cut from the seed-0 spelling: compressed lengths depend on the token spelling, and the
+    # set of cases must not depend on the seed (member tokens can never collide with the class-K canary tokens)
+    tk = Tokens(0 if arch.get("cut") is not None else seed)
     cont = arch["c"]
     fam = cont.split("-")[0].split(".")[0]
     opts = dict(arch.get("o") or {})
@@ -726,8 +731,7 @@ def _small_part(kind):
     elif kind == "trunc":
         ms = [W1, {"n": gname("", "/", ".txt", [".h"]), "t": "REG"}, {"n": gname("", "/", ".txt", ["a", "a"]), "t": "REG"}]
         for c, limit in (("zip-s", None), ("zip-d", None), ("tar", 3072), ("tar.gz", None), ("tar.bz2", None), ("tar.xz", None), ("7z", None)):
-            # lengths of the seed-0 rendering (token spelling changes compressed sizes by a few bytes; "cut" means
-            # "keep the first cut bytes", a cut beyond the end keeps the archive whole)
+            # every proper prefix of the seed-0 rendering (build() always renders cut archives with seed-0 member tokens)
             full = build({"c": c, "m": ms}, "/nonexistent", 0)[0]
             for n in range(0, min(len(full), limit or len(full))):
                 yield {"c": c, "m": ms, "cut": n}
